@@ -50,8 +50,9 @@ def observe(V, F):
     p = coxeter.shapes.Polyhedron(V, [np.array(f) for f in F])
     vmap = {tuple(v): i for i, v in enumerate(p.vertices)}
     tris = [[vmap[tuple(v)] for v in tri] for tri in p._surface_triangulation()]
+    fa = np.array(p.get_face_area(), float)
     return dict(volume=float(p.volume), surface_area=float(p.surface_area),
-                face_areas=np.array(p.get_face_area(), float), centroid=np.array(p.centroid, float),
+                face_areas=fa, face_area_forms=C.face_area_forms(p, fa), centroid=np.array(p.centroid, float),
                 inertia=np.array(p.inertia_tensor, float), tris=tris, vertices=np.array(p.vertices, float))
 
 
@@ -144,6 +145,8 @@ def run(chk):
         cmp("volume", o["volume"], vol_s, R ** 3)
         cmp("volume-model", C.fl(m["vol_code"]), vol_s, 1e-3 * R ** 3)  # model of the code's formula vs spec
         cmp("face_areas", o["face_areas"], areas, R ** 2)
+        for prob in o.get("face_area_forms", []):
+            chk.violation("get_face_area-call-forms", dict(desc, what=prob)); break
         cmp("surface_area", o["surface_area"], sum(areas), R ** 2)
         cmp("centroid", o["centroid"], cen_s, max(R, R ** 4 / max(abs(vol_s), 1e-300)))
         cmp("inertia_tensor", C.sym6(o["inertia"]), I_s, R ** 5)
